@@ -18,7 +18,11 @@ features whose number selects a variant:
     message/rfc822 part;
     pdf "enc" = 1..8, the forms of the standard security handler (PDF_ENC): legacy RC4-40 / RC4-128, and the crypt-filter
     forms /V 4 with /CFM /V2 or /AESV2 and /V 5 with /AESV3, each with the conventional filter name /StdCF and with another
-    name (the name is free: /StmF and /StrF reference it);  userpw = non-empty user password (the library has to refuse).
+    name (the name is free: /StmF and /StrF reference it);  userpw = non-empty user password (the library has to refuse);
+    incell (docx odt rtf html mhtml epub) = PLACEMENT: the hyperlink paragraphs, pictures and lists of the document sit inside
+    the cells of one table instead of directly in the body (nothing is anchored at body level);  clsnames (odp) = ROLES: the
+    paragraph styles are named TitleText / BodyText as presentation software names them, so that heads / lists / paras are
+    the title / body / other paragraphs of a slide (with the anonymous automatic names P1.. every paragraph is "other" text).
 The bytes depend on the spec only (tokens come from Tokens(0): the token
 alphabet permutation of VERIF_SEED is irrelevant for this property and would only make inputs seed dependent).
 
@@ -77,18 +81,18 @@ def jpeg(uid: int, w: int = 16, h: int = 8) -> bytes:
 
 _TEXT = ["paras", "heads", "links", "images", "tables", "lists"]
 FEATURES = {
-    "docx": _TEXT + ["altimgs", "styles", "notes", "comments", "revs", "boxes", "math", "units", "kwords", "meta", "nocore"],
-    "odt": _TEXT + ["altimgs", "bookmarks", "notes", "comments", "revs", "units", "kwords", "meta", "nometa", "emptymeta"],
-    "rtf": _TEXT + ["notes", "comments", "revs", "units", "kwords", "meta"],
+    "docx": _TEXT + ["altimgs", "styles", "notes", "comments", "revs", "boxes", "math", "units", "kwords", "meta", "nocore", "incell"],
+    "odt": _TEXT + ["altimgs", "bookmarks", "notes", "comments", "revs", "units", "kwords", "meta", "nometa", "emptymeta", "incell"],
+    "rtf": _TEXT + ["notes", "comments", "revs", "units", "kwords", "meta", "incell"],
     "pptx": _TEXT + ["altimgs", "notes", "comments", "math", "units", "kwords", "meta", "nocore"],
-    "odp": _TEXT + ["altimgs", "notes", "units", "kwords", "meta", "nometa", "emptymeta"],
+    "odp": _TEXT + ["altimgs", "notes", "units", "kwords", "meta", "nometa", "emptymeta", "clsnames"],
     "odg": _TEXT + ["altimgs", "units", "kwords", "meta", "nometa", "emptymeta"],
     "odf": ["paras", "formulas", "fracs", "encodings", "kwords", "meta"],
     "ppt": ["paras", "heads", "images", "notes", "units", "kwords", "meta"],
     "pdf": ["paras", "heads", "images", "units", "kwords", "meta", "enc", "userpw"],
-    "html": _TEXT + ["kwords", "meta"],
-    "mhtml": _TEXT + ["kwords", "meta"],
-    "epub": _TEXT + ["units", "kwords", "meta"],
+    "html": _TEXT + ["kwords", "meta", "incell"],
+    "mhtml": _TEXT + ["kwords", "meta", "incell"],
+    "epub": _TEXT + ["units", "kwords", "meta", "incell"],
     "txt": ["paras", "units"],
     "md": ["paras", "heads", "links", "lists", "units"],
     "json": ["paras"],
@@ -104,11 +108,21 @@ FEATURES = {
     "7z": ["members"],
 }
 GEN_FORMATS = list(FEATURES)
-FLAGS = ("meta", "html", "nocore", "nometa", "emptymeta", "bare", "noname", "rfc822", "userpw")     # on/off features (count 1)
+FLAGS = ("meta", "html", "nocore", "nometa", "emptymeta", "bare", "noname", "rfc822", "userpw", "incell", "clsnames")     # on/off features (count 1)
 NOMETA = ("nocore", "nometa", "emptymeta")       # the package has no docProps/core.xml / no meta.xml part (both parts are optional) /
 #                                                  an empty <office:meta/>; they exclude "meta" and each other
 CHOICES = {"enc": 8}                             # feature -> number of variants (the value selects the variant, it is not a count)
-VARIANTS = NOMETA + ("bare", "noname", "rfc822", "enc", "userpw")    # not part of the rich document: documents of their own
+VARIANTS = NOMETA + ("bare", "noname", "rfc822", "enc", "userpw", "incell", "clsnames")    # not part of the rich document: documents of their own
+# PLACEMENT / ROLE variants - WHERE a counted feature sits and WHICH ROLE a paragraph plays decides which branch of an extractor
+# (and which field of the result) it reaches:
+#   incell    the document's hyperlink paragraphs, pictures (with and without alternative text) and lists are not children of the
+#             body but sit inside the cells of ONE table (one row each: a label cell and the nested block) - content a reader
+#             only finds when it descends into containers
+#   clsnames  (odp) the paragraph styles carry the role names presentation software writes (TitleText / BodyText) instead of
+#             anonymous automatic names (P1 / P2): only then does a reader tell title, body (outline) and other text apart;
+#             heads = title paragraph, lists = body (outline) paragraphs, paras = other paragraphs
+NESTABLE = ("links", "images", "altimgs", "lists")        # the features "incell" moves into table cells
+ROLES = ("heads", "lists", "paras")                      # odp + clsnames: title / body / other paragraphs of a slide
 # pdf "enc": (algorithm of verif.gen.pdfw, crypt filter | None)
 PDF_ENC = {1: ("RC4-40", None), 2: ("RC4-128", None),
            3: ("RC4-128", {"name": "StdCF", "cfm": "V2"}), 4: ("RC4-128", {"name": "StdCF", "cfm": "AESV2"}),
@@ -158,6 +172,7 @@ class _B:
 def _adm_blocks(fmt, n, b: _B, first_unit=True):
     """blocks of one unit for the text-like ADM formats"""
     out = []
+    sink = [] if n.get("incell") else out         # incell: hyperlinks, pictures and lists go into the cells of one table
     for _ in range(n.get("paras", 0)):
         out.append(["p", [["t", b.t("B")], ["t", b.t("B")]]] if fmt not in ("odf",) else _p(b.t("B")))
     for i in range(min(n.get("heads", 0), 1) if fmt in ("pptx", "odp") else n.get("heads", 0)):
@@ -166,13 +181,13 @@ def _adm_blocks(fmt, n, b: _B, first_unit=True):
     for i in range(n.get("styles", 0)):
         out.append(_p("Sty%03dx%s" % (i, b.t("B"))))      # marker paragraphs: restyled by _docx_restyle
     for i in range(n.get("links", 0)):
-        out.append(["p", [["t", b.t("B")], ["a", "http://verif.example/%s/%d" % (b.t("Z").lower(), i), [["t", b.t("K")]]]]])
+        sink.append(["p", [["t", b.t("B")], ["a", "http://verif.example/%s/%d" % (b.t("Z").lower(), i), [["t", b.t("K")]]]]])
     for i in range(n.get("bookmarks", 0)):
         out.append(_p("Bkm%03dx%s" % (i, b.t("B"))))      # marker paragraphs: a text:bookmark is put in front of the text
     for _ in range(n.get("images", 0)):
-        out.append(["img", b.image()])
+        sink.append(["img", b.image()])
     for _ in range(n.get("altimgs", 0)):
-        out.append(["img", b.image(alt=True)])                # a picture WITH alternative text (title / description)
+        sink.append(["img", b.image(alt=True)])                # a picture WITH alternative text (title / description)
     for _ in range(n.get("tables", 0)):
         out.append(["tbl", [[[_p(b.t("C"))], [_p(b.t("C"))]], [[_p(b.t("C"))], [_p(b.t("C"))]]]])
     k = n.get("lists", 0)
@@ -180,7 +195,9 @@ def _adm_blocks(fmt, n, b: _B, first_unit=True):
         items = [[_p(b.t("L"))] for _ in range(k)]
         if k >= 2 and fmt not in ("md",):
             items[1].append(["ul", [[_p(b.t("L"))]]])
-        out.append(["ul", items])
+        sink.append(["ul", items])
+    if sink is not out and sink:
+        out.append(["tbl", [[[_p(b.t("C"))], [blk]] for blk in sink]])
     if first_unit:
         for _ in range(n.get("notes", 0) if fmt in ("docx", "odt", "rtf") else 0):
             out.append(["p", [["t", b.t("B")], ["fn", b.t("Z")]]])
@@ -362,15 +379,19 @@ def _html_body(n, b: _B, img_src):
         x.append(f"<p>{b.t('B')} {b.t('B')}</p>")
     for i in range(n.get("heads", 0)):
         x.append(f"<h{1 + i % 3}>{b.t('H')}</h{1 + i % 3}><p>{b.t('B')}</p>")
+    body, x = x, ([] if n.get("incell") else x)      # incell: hyperlinks, pictures and the list go into the cells of one table
     for i in range(n.get("links", 0)):
         x.append(f'<p>{b.t("B")} <a href="http://verif.example/{b.t("Z").lower()}/{i}">{b.t("K")}</a></p>')
     for i in range(n.get("images", 0)):
         x.append(f'<p><img src="{img_src(i)}" alt="{b.t("Z")}"/></p>')
+    nested, x = x, body
     for _ in range(n.get("tables", 0)):
         x.append(f"<table><tr><td>{b.t('C')}</td><td>{b.t('C')}</td></tr><tr><td>{b.t('C')}</td><td>{b.t('C')}</td></tr></table>")
     k = n.get("lists", 0)
     if k:
-        x.append("<ul>" + "".join(f"<li>{b.t('L')}</li>" for _ in range(k)) + "</ul>")
+        (nested if n.get("incell") else x).append("<ul>" + "".join(f"<li>{b.t('L')}</li>" for _ in range(k)) + "</ul>")
+    if n.get("incell") and nested:
+        x.append("<table>" + "".join(f"<tr><td>{b.t('C')}</td><td>{blk}</td></tr>" for blk in nested) + "</table>")
     return "".join(x)
 
 
@@ -575,8 +596,10 @@ def _build_gen(fmt, n) -> bytes:
         doc = _adm_doc(fmt, n, b)
         if fmt == "odf":
             doc[2] = [["unit", [_p(b.t("B"))], {}]] if not n.get("paras") else [["unit", doc[2][0][1][:1], {}]]
-        data = getattr(odf, fmt)(doc, b.odf_images(), {"omit_parts": ["meta.xml"]} if n.get("nometa") else
-                                 ({"split_keywords": True} if n.get("kwords") else {}))
+        o = {"omit_parts": ["meta.xml"]} if n.get("nometa") else ({"split_keywords": True} if n.get("kwords") else {})
+        if fmt == "odp" and n.get("clsnames"):
+            o["class_style_names"] = True
+        data = getattr(odf, fmt)(doc, b.odf_images(), o)
         if fmt == "odt" and n.get("bookmarks"):
             data = _odt_bookmarks(data)
         if fmt == "odf" and any(n.get(k) for k in ("formulas", "fracs", "encodings")):
@@ -691,7 +714,10 @@ def gen_specs(tier):
     """rich document (every feature of the format, 2 of each; thorough also 3 of each), every single feature with 5
     (thorough also 6 and 8) distinct instances / every flag / every variant of a choice feature (pdf: every encryption form on
     the base document PDF_ENC_BASE, with and without a user password), thorough: every pair of features (5 instances each,
-    every variant of a choice)."""
+    every variant of a choice).
+    Placement family (formats with "incell"): each nestable feature (NESTABLE) alone with 5 (thorough also 6, 8) instances inside
+    table cells + all nestable features together (2 each; thorough also 3 each).  Role family (odp, "clsnames"): every non-empty
+    subset of ROLES = {title, body, other} paragraphs on a slide with role-named styles (2 each; thorough also 3 and 5 each)."""
     quick = tier == "quick"
     out = []
     for fmt in GEN_FORMATS:
@@ -701,12 +727,29 @@ def gen_specs(tier):
         for f in feats:
             if f == "userpw":
                 continue                      # only meaningful together with "enc" (below)
+            if f in ("incell", "clsnames"):
+                continue                      # placement / role variants say something about content only: families below
             for k in _values(f, True, quick):
                 if f == "enc":
                     out.append({"gen": fmt, "n": dict(PDF_ENC_BASE, enc=k)})
                     out.append({"gen": fmt, "n": dict(PDF_ENC_BASE, enc=k, userpw=1)})
                 else:
                     out.append({"gen": fmt, "n": {f: k}})
+        if "incell" in feats:
+            # placement: every nestable feature on its own (5 instances; thorough also 6 and 8) inside table cells, and all of them
+            # together (2 each; thorough also 3 each)
+            for f in NESTABLE:
+                if f in feats:
+                    for k in _values(f, True, quick):
+                        out.append({"gen": fmt, "n": {f: k, "incell": 1}})
+            for k in ((2,) if quick else (2, 3)):
+                out.append({"gen": fmt, "n": dict({f: k for f in NESTABLE if f in feats}, incell=1)})
+        if "clsnames" in feats:
+            # roles: a slide with every non-empty subset of {title, body, other} paragraphs (2 of each; thorough also 3 and 5)
+            for r in range(1, len(ROLES) + 1):
+                for sub in itertools.combinations(ROLES, r):
+                    for k in ((2,) if quick else (2, 3, 5)):
+                        out.append({"gen": fmt, "n": dict({f: k for f in sub}, clsnames=1)})
         if not quick:
             out.append(rich_spec(fmt, 3))
             for f, g in itertools.combinations(feats, 2):
